@@ -12,7 +12,7 @@
 (* the specification's step" and "the logged state satisfies the            *)
 (* property's predicate".  Empty set = the event conforms.                 *)
 (***************************************************************************)
-EXTENDS Env, Rebuild, GeneratorShape
+EXTENDS Env, Rebuild, GeneratorShape, Transformations
 
 Tag(c, x) == <<c, ToString(x)>>
 C(c) == <<c, "">>
@@ -526,6 +526,19 @@ CreateOrGetCondClauses(T, prev, ev, post) ==
   \cup If(ev.out = "ok" /\ i # 0 /\ (ev.res # i \/ Len(post.obs) # Len(prev.obs)), {Tag("C10:create-or-get", ev.cls)})
   \cup If(ev.out = "ok" /\ i = 0 /\ (Len(post.obs) <= Len(prev.obs) \/ ev.res <= Len(prev.obs)), {Tag("C10:create-or-get-did-not-create", ev.cls)})
 
+(* --- beyond the listed properties: instance transformations ("X:" clauses are    *)
+(* informational; the input instance being left alone is C14's)                     *)
+TransformClauses(T, prev, ev, post) ==
+    LET I == T.inst  O == ev.result IN
+       If(~post.instok, {Tag("X:transform-modified-its-input", ev.kind)})     \* (transformations are not in C14's list)
+  \cup If(ev.out # "ok", {Tag("X:transform-raised", <<ev.kind, ev.out>>)})
+  \cup (IF ev.out = "ok" THEN
+          CASE ev.kind = "remove_machines" -> If(~RemoveMachinesOK(I, O, ev.n), {C("X:transform:remove-machines")})
+            [] ev.kind = "add_noise" -> If(~AddNoiseOK(I, O, ev.lo, ev.hi, ev.level), {C("X:transform:add-noise")})
+            [] ev.kind = "remove_jobs" -> If(~RemoveJobsOK(I, O, ev.target), {C("X:transform:remove-jobs")})
+            [] OTHER -> {}
+        ELSE {})
+
 KindsOf(kinds, subs) == [i \in DOMAIN subs |-> IF subs[i] = 0 THEN "other" ELSE kinds[subs[i]]]
 
 CreateClauses(T, prev, ev, post) ==
@@ -570,6 +583,7 @@ DClauses(T, l, prev, post) ==
            [] ev.a = "EnvFreshRun" -> EnvFreshRunClauses(T, prev, ev, post)
            [] ev.a = "MultiReset"  -> MultiResetClauses(T, prev, ev, post)
            [] ev.a = "MultiResetFailed" -> MultiResetFailedClauses(T, prev, ev, post)
+           [] ev.a = "Transform"   -> TransformClauses(T, prev, ev, post)
            [] ev.a = "Views"       -> ViewsClauses(T, prev, ev, post)
            [] ev.a = "RoundTrip"   -> RoundTripClauses(T, prev, ev, post)
            [] ev.a = "FromSeqs"    -> FromSeqsClauses(T, prev, ev, post)
